@@ -217,7 +217,10 @@ static void do_op(Cmd *c) {
             o("st=- ");
         } else if (is_op(c, "zit_new")) {
             int k2 = (int)kv_u64(c, "o2", 1);
-            if (k2 < 0 || k2 >= NSLOT || k2 == k || !l || !L[k2]) { it_kind = 0; o("st=- contract "); goto done; }
+            /* a zip iterator over the SAME list (o2 == o) is accepted: the header docs do not forbid it.  It is a known finding
+               (KF-list-zip-same-list: zip remove frees the node twice, the slist zip add loses a node); no generator emits it, the
+               Lean drivers answer "contract" and the lines are only run from corpus/<k>/defect_zip_same_list_*.ops */
+            if (k2 < 0 || k2 >= NSLOT || !l || !L[k2]) { it_kind = 0; o("st=- contract "); goto done; }
             it_kind = 3; it_o = k; it_o2 = k2; it_changed = 0;
             cc_list_zip_iter_init(&zit, l, L[k2]);
             o("st=- ");
@@ -260,7 +263,8 @@ static void do_op(Cmd *c) {
     } else if (is_op(c, "add_last")) { o_stat(cc_list_add_last(l, PTR(v))); o(" ");
     } else if (is_op(c, "add_at")) { o_stat(cc_list_add_at(l, PTR(v), idx)); o(" ");
     } else if (is_op(c, "add_all") || is_op(c, "add_all_at") || is_op(c, "splice") || is_op(c, "splice_at")) {
-        if (from == k || !L[from]) { o("st=- contract "); goto done; }
+        /* add_all(l, l) / add_all_at(l, l, i) are legal (the list is doubled); splice(l, l) is not */
+        if (!L[from] || (from == k && (is_op(c, "splice") || is_op(c, "splice_at")))) { o("st=- contract "); goto done; }
         enum cc_stat st = is_op(c, "add_all") ? cc_list_add_all(l, L[from]) : is_op(c, "add_all_at") ? cc_list_add_all_at(l, L[from], idx)
                         : is_op(c, "splice") ? cc_list_splice(l, L[from]) : cc_list_splice_at(l, L[from], idx);
         o_stat(st); o(" ");
